@@ -9,9 +9,13 @@
 //!   indent <enc>                  indentation script: lines `<ws>:<kind>` joined by `,`, ws over t/s
 //!   num <hex>                     text over the numeral alphabet, parsed as a module
 //!   lexerr <hex>                  parse; only lexical errors are reported, everything else `nolex`
+//!   chr <codepoint> <0|1>         lexerr of `x<c>y` / `x<c>=y`
+//!   cont <hex tail>               lexerr of `x = 1 + \<tail>`
+//!   strlex <hex>                  text over ' " a \ newline, parsed as a module
 //!   parse <hex>                   parse (module), `ok` / `(err Kind off)` absolute offset
 //!   fstr <hex body>               parse `f'<body>'`, offset relative to the body start
-//!   strs <enc>                    implicit concatenation of literal kinds (b/s/f/u/r)
+//!   strs <enc> <pre> <post>       implicit concatenation of literal kinds (b/s/f/u/r/R/F)
+//!   bytes <hex body> <pre> <post> `b'<body>'`, offset relative to the body start
 //!
 //! Error KIND is coarse (enum variants only, never message text).
 use pvh::*;
@@ -60,6 +64,17 @@ fn kind_of(e: &ParseErrorType) -> String {
 
 fn is_lexical(e: &ParseErrorType) -> bool {
     matches!(e, ParseErrorType::Lexical(_))
+}
+
+/// only lexical errors are reported; `nolex` otherwise (accepted or rejected by the grammar)
+fn lexerr(t: &str) -> String {
+    match guard(|| run(t)) {
+        None => "(panic)".into(),
+        Some(Err(e)) if is_lexical(&e.error) => {
+            format!("(err {} {})", kind_of(&e.error), u32::from(e.offset))
+        }
+        Some(_) => "nolex".into(),
+    }
 }
 
 fn run(text: &str) -> Result<(), ParseError> {
@@ -209,13 +224,7 @@ fn judge_brackets(mode: &str, word: &str) -> String {
                 .char_indices()
                 .filter(|(i, c)| *i < off && *c == ',')
                 .count();
-            let at_comma = text.as_bytes().get(off) == Some(&b',');
-            format!(
-                "(err {} {}{})",
-                kind_of(&e.error),
-                off - commas,
-                if at_comma { " comma" } else { "" }
-            )
+            format!("(err {} {})", kind_of(&e.error), off - commas)
         }
     }
 }
@@ -300,27 +309,33 @@ fn handle(ws: &[&str]) -> String {
             Some(t) => judge("", &t, ""),
             None => bad(),
         },
-        ["num", t] | ["parse", t] => match unhex_str(t) {
+        ["num", t] | ["parse", t] | ["strlex", t] => match unhex_str(t) {
             Some(t) => judge("", &t, ""),
             None => bad(),
         },
         ["lexerr", t] => match unhex_str(t) {
-            Some(t) => match guard(|| run(&t)) {
-                None => "(panic)".into(),
-                Some(Err(e)) if is_lexical(&e.error) => {
-                    format!("(err {} {})", kind_of(&e.error), u32::from(e.offset))
-                }
-                Some(_) => "nolex".into(),
-            },
+            Some(t) => lexerr(&t),
+            None => bad(),
+        },
+        ["chr", cp, eq] => match cp.parse::<u32>().ok().and_then(char::from_u32) {
+            Some(c) => lexerr(&format!("x{}{}y", c, if *eq == "1" { "=" } else { "" })),
+            None => bad(),
+        },
+        ["cont", t] => match unhex_str(t) {
+            Some(t) => lexerr(&format!("x = 1 + \\{}", t)),
             None => bad(),
         },
         ["fstr", body] => match unhex_str(body) {
             Some(b) => judge("f'", &b, "'"),
             None => bad(),
         },
-        ["strs", enc] => match render_strs(enc) {
-            Some(t) => judge("", &t, ""),
-            None => bad(),
+        ["strs", enc, pre, post] => match (render_strs(enc), ctx(pre, post)) {
+            (Some(m), Some((a, b))) => judge(&a, &m, &b),
+            _ => bad(),
+        },
+        ["bytes", body, pre, post] => match (unhex_str(body), ctx(pre, post)) {
+            (Some(m), Some((a, b))) => judge(&format!("{}b'", a), &m, &format!("'{}", b)),
+            _ => bad(),
         },
         _ => bad(),
     }
